@@ -76,6 +76,93 @@ package align
 //@     invariant forall r, c :: 0 <= r && r < i && 0 <= c && c < length ==> cell(subalign, r, c) == cell(a, r, start + c)
 //@     decreases nrows(a) - i
 
+//@ pure func sitesok(a *align, sites []int) bool = forall j :: 0 <= j && j < len(sites) ==> 0 <= sites[j] && sites[j] < a.length
+
+//@ func (*align).SelectSites
+//@   props C04 C19
+//@   requires wfa(a)
+//@   ensures (err == nil) == sitesok(a, sites)
+//@   ensures err == nil ==> subalign != nil && fresh(subalign) && wfa(subalign) && nrows(subalign) == nrows(a) && (nrows(a) > 0 ==> subalign.length == len(sites))
+//@   ensures err == nil ==> forall r :: 0 <= r && r < nrows(a) ==> rowname(subalign, r) == rowname(a, r) && fresh(row(subalign, r)) && fresh(row(subalign, r).sequence)
+//@   ensures err == nil ==> forall r, j :: 0 <= r && r < nrows(a) && 0 <= j && j < len(sites) ==> cell(subalign, r, j) == cell(a, r, sites[j])
+//@   ensures err == nil ==> subalign.alphabet == a.alphabet
+//@   modifies nothing
+//@   loop 1
+//@     invariant err == nil
+//@     invariant forall j :: 0 <= j && j < $i ==> 0 <= sites[j] && sites[j] < a.length
+//@     decreases len(sites) - $i
+//@   loop 2
+//@     invariant sitesok(a, sites) && err == nil
+//@     invariant 0 <= i && i <= nrows(a) && subalign != nil && fresh(subalign) && wfa(subalign) && nrows(subalign) == i && (i > 0 ==> subalign.length == len(sites))
+//@     invariant subalign.ignoreidentical == IGNORE_NONE && subalign.alphabet == a.alphabet && fresh(subalign.seqmap) && fresh(subalign.seqs)
+//@     invariant forall r :: 0 <= r && r < i ==> rowname(subalign, r) == rowname(a, r) && fresh(row(subalign, r)) && fresh(row(subalign, r).sequence) && allocated(row(subalign, r).sequence)
+//@     invariant forall r, j :: 0 <= r && r < i && 0 <= j && j < len(sites) ==> cell(subalign, r, j) == cell(a, r, sites[j])
+//@     decreases nrows(a) - i
+//@   loop 3
+//@     modifies seq[*]
+//@     invariant fresh(seq) && len(seq) == len(sites) && alseq == row(a, i) && sameslice(alseqchar, alseq.sequence) && 0 <= i && i < nrows(a)
+//@     invariant forall j :: 0 <= j && j < $i ==> seq[j] == cell(a, i, sites[j])
+//@     decreases len(sites) - $i
+
+//@ func (*align).InverseCoordinates
+//@   props C04
+//@   arith wrap64
+//@   requires wfa(a)
+//@   ensures (err == nil) == (0 <= start && 0 <= length && start + length <= a.length)
+//@   ensures len(invstarts) == len(invlengths)
+//@   ensures err == nil ==> len(invstarts) == (start > 0 ? 1 : 0) + (start + length < a.length ? 1 : 0)
+//@   ensures err == nil && start > 0 ==> invstarts[0] == 0 && invlengths[0] == start
+//@   ensures err == nil && start + length < a.length ==> invstarts[len(invstarts)-1] == start + length && invlengths[len(invstarts)-1] == a.length - (start + length)
+//@   modifies nothing
+
+//@ opaque func insites(sites []int, n int, c int) bool = exists j :: 0 <= j && j < n && sites[j] == c
+
+//@ func (*align).InversePositions
+//@   props C04
+//@   requires wfa(a)
+//@   ensures (err == nil) == sitesok(a, sites)
+//@   ensures err == nil ==> forall k :: 0 <= k && k < len(invsites) ==> 0 <= invsites[k] && invsites[k] < a.length && !insites(sites, len(sites), invsites[k])
+//@   ensures err == nil ==> forall k1, k2 :: 0 <= k1 && k1 < k2 && k2 < len(invsites) ==> invsites[k1] < invsites[k2]
+// completeness, as "every column strictly between two consecutive results (or before the first / after the last) is a requested site"
+//@   ensures err == nil ==> forall c :: 0 <= c && c < a.length && (len(invsites) == 0 || c < invsites[0]) ==> insites(sites, len(sites), c)
+//@   ensures err == nil ==> forall k, c :: 0 <= k && k + 1 < len(invsites) && invsites[k] < c && c < invsites[k+1] ==> insites(sites, len(sites), c)
+//@   ensures err == nil ==> forall c :: len(invsites) > 0 && invsites[len(invsites)-1] < c && c < a.length ==> insites(sites, len(sites), c)
+//@   modifies nothing
+//@   loop 1
+//@     invariant err == nil && len(invsites) == 0 && fresh(invsites)
+//@     invariant forall j :: 0 <= j && j < $i ==> 0 <= sites[j] && sites[j] < a.length
+//@     decreases len(sites) - $i
+//@   loop 2
+//@     invariant err == nil && len(invsites) == 0 && sitesok(a, sites) && posmap != nil && fresh(posmap) && fresh(invsites)
+//@     invariant forall j :: 0 <= j && j < $i ==> has(posmap, sites[j])
+//@     invariant forall c :: has(posmap, c) ==> insites(sites, $i, c)
+//@     decreases len(sites) - $i
+//@   loop 3
+//@     invariant err == nil && sitesok(a, sites) && posmap != nil && fresh(invsites) && 0 <= i && (a.length >= 0 ==> i <= a.length) && (a.length < 0 ==> i == 0)
+//@     invariant forall j :: 0 <= j && j < len(sites) ==> has(posmap, sites[j])
+//@     invariant forall c :: has(posmap, c) ==> insites(sites, len(sites), c)
+//@     invariant forall k :: 0 <= k && k < len(invsites) ==> 0 <= invsites[k] && invsites[k] < i && !has(posmap, invsites[k])
+//@     invariant forall k1, k2 :: 0 <= k1 && k1 < k2 && k2 < len(invsites) ==> invsites[k1] < invsites[k2]
+//@     invariant forall c :: 0 <= c && c < i && (len(invsites) == 0 || c < invsites[0]) ==> has(posmap, c)
+//@     invariant forall k, c :: 0 <= k && k + 1 < len(invsites) && invsites[k] < c && c < invsites[k+1] ==> has(posmap, c)
+//@     invariant forall c :: len(invsites) > 0 && invsites[len(invsites)-1] < c && c < i ==> has(posmap, c)
+//@     decreases a.length - i
+
+//@ func (*align).TrimSequences
+//@   props C04 C01
+//@   requires wfa(a)
+//@   ensures (result == nil) == (0 <= trimsize && trimsize < old(a.length))
+//@   ensures result != nil ==> a.length == old(a.length) && (forall r :: 0 <= r && r < nrows(a) ==> sameslice(row(a, r).sequence, old(row(a, r).sequence)))
+//@   ensures result == nil ==> a.length == old(a.length) - trimsize && wfa(a)
+//@   ensures result == nil ==> forall r, c :: 0 <= r && r < nrows(a) && 0 <= c && c < a.length ==> cell(a, r, c) == old(cell(a, r, (fromStart ? c + trimsize : c)))
+//@   ensures nrows(a) == old(nrows(a)) && (forall r :: 0 <= r && r < nrows(a) ==> row(a, r) == old(row(a, r)) && rowname(a, r) == old(rowname(a, r)))
+//@   modifies a.length, field(seq.sequence)
+//@   loop 1
+//@     invariant 0 <= trimsize && trimsize < a.length && a.length == old(a.length)
+//@     invariant forall r :: 0 <= r && r < $i ==> len(row(a, r).sequence) == old(a.length) - trimsize && base(row(a, r).sequence) == old(base(row(a, r).sequence)) && off(row(a, r).sequence) == old(off(row(a, r).sequence)) + (fromStart ? trimsize : 0)
+//@     invariant forall r :: $i <= r && r < nrows(a) ==> sameslice(row(a, r).sequence, old(row(a, r).sequence))
+//@     decreases nrows(a) - $i
+
 // ---- C06: strand and case transforms ----
 
 //@ table complement_nuc_mapping C06
